@@ -900,6 +900,65 @@ func ruleR21b(c *Ctx) *RuleResult {
 		}
 		add("avl.directions", "every AVL direction argument is ±1 (a constant, the caller's own direction or its negation) and every access to the two-element Children array uses 0/1, (c+1)/2 or its complement — the comparator's magnitude never reaches an index or a balance factor", anchor, bad, fmt.Sprintf("%d direction arguments, %d child accesses", ncall, nidx))
 	}
+	// --- AVL: which side a fix-up is told about
+	{
+		var bad []string
+		n := 0
+		var anchor *ssa.Function
+		for _, fn := range p.Funcs {
+			if fn.Parent() != nil || fn.Blocks == nil || fn.Pkg == nil || p.RelPkg(fn.Pkg.Pkg.Path()) != "trees/avltree" {
+				continue
+			}
+			gc := c.GC(fn)
+			if gc.Undecided != "" {
+				continue
+			}
+			for _, g := range gc.GCs {
+				child := -1 // index of the child whose address the latest recursive modifier received
+				for _, ef := range g.Effects {
+					nm, args, ok := effDo(ef)
+					if !ok {
+						continue
+					}
+					if nm == "putFix" || nm == "removeFix" {
+						if child < 0 || len(args) < 1 {
+							continue
+						}
+						d, isConst := args[0].constInt()
+						if !isConst {
+							continue
+						}
+						n++
+						if anchor == nil {
+							anchor = fn
+						}
+						want := int64(2*child - 1) // putFix: the side that grew
+						what := "grew"
+						if nm == "removeFix" {
+							want = int64(1 - 2*child) // removeFix: the side opposite to the one that shrank
+							what = "is opposite to the one that shrank"
+						}
+						if d != want {
+							bad = append(bad, fmt.Sprintf("%s: after changing the subtree under Children[%d], %s is told direction %d; the side that %s is %d", p.FuncKey(fn), child, nm, d, what, want))
+						}
+						child = -1
+						continue
+					}
+					for _, a := range args {
+						if a.Op == "ia" && len(a.Args) == 2 && a.Args[0].Op == "fa" && a.Args[0].Leaf == "Children" {
+							if k, isC := a.Args[1].constInt(); isC && (k == 0 || k == 1) {
+								child = int(k)
+							}
+						}
+					}
+				}
+			}
+		}
+		if n < 4 {
+			bad = append(bad, fmt.Sprintf("expected the fix-up call sites after recursive put/remove/removeMin, found %d", n))
+		}
+		add("avl.fix-side", "a fix-up that follows a recursive change under Children[i] is told the right side: putFix the side that grew (2i-1), removeFix the opposite of the side that shrank (1-2i)", anchor, bad, fmt.Sprintf("%d fix-up call sites with constant child index and direction", n))
+	}
 	// --- B-tree: the key handed to rebalance belongs to the node handed to rebalance
 	{
 		var bad []string
